@@ -74,7 +74,11 @@ macro_rules! myers_simple {
             assert!(it.next().is_none(), "C09: Myers::find_all_end reports a spurious hit");
             assert!(my.distance(t.iter()) as usize == best, "C09: Myers::distance is not the minimum over all end positions");
             assert!(my.find_best_end(t.iter()) == (best_end, best as u8), "C09: Myers::find_best_end is not the first best end");
-            kani::cover!(hits >= 1 && best > 0 && (k as usize) < M, "approximate (non-exact) hit within k");
+            if M > 1 {
+                kani::cover!(hits >= 1 && best > 0 && (k as usize) < M, "approximate (non-exact) hit within k");
+            } else {
+                kani::cover!(hits >= 1, "hit");
+            }
             kani::cover!(hits == 0, "no hit");
             core::mem::forget(my);
         }
